@@ -237,7 +237,128 @@ async def _sc_client(case: dict, inj: _Inject) -> dict:
             await asyncio.gather(sender, return_exceptions=True)
 
 
+async def _sc_adapter(case: dict, inj: _Inject) -> dict:
+    """AsyncioTransportStreamSocketAdapter.aclose over the fake selector transport, with or without unsent data"""
+    from easynetwork.lowlevel.api_async.backend._asyncio.stream.socket import AsyncioTransportStreamSocketAdapter, StreamReaderBufferedProtocol
+
+    from ..fakeasyncio import FakeAsyncioTransport
+
+    loop = asyncio.get_running_loop()
+    backend = AsyncIOBackend()
+    protocol = StreamReaderBufferedProtocol(loop=loop)
+    transport = FakeAsyncioTransport(loop, protocol, kernel_capacity=case["capacity"])
+    adapter = AsyncioTransportStreamSocketAdapter(backend, transport, protocol)
+    sender = None
+    if case["pending_bytes"]:
+        sender = asyncio.create_task(adapter.send_all(b"x" * case["pending_bytes"]))
+        for _ in range(3):
+            await asyncio.sleep(0)
+    if case.get("peer_drains_after") is not None:
+
+        def peer_reads_everything() -> None:
+            transport.kernel_capacity = None
+            transport.max_send = None
+            transport.drain(None)
+
+        loop.call_later(case["peer_drains_after"], peer_reads_everything)
+    if case.get("lost_after") is not None:
+        loop.call_later(case["lost_after"], transport.lose_connection, ConnectionResetError(104, "reset"))
+    try:
+        end = await _run_close(backend, adapter.aclose, inj)
+        facts = {"underlying": [("asyncio-transport", transport.is_closing())], "outer_closing": adapter.is_closing(), "second": None}
+        return {"end": end, "facts": facts}
+    finally:
+        transport.abort()
+        if sender is not None:
+            sender.cancel()
+            await asyncio.gather(sender, return_exceptions=True)
+        for _ in range(3):
+            await asyncio.sleep(0)
+
+
+async def _sc_server_client(case: dict, inj: _Inject) -> dict:
+    """server-side client object of a running AsyncTCPNetworkServer: aclose() called from the request handler (optionally
+    while another task of the handler is parked inside send_packet), then the client task's own teardown"""
+    from easynetwork.servers.async_tcp import AsyncTCPNetworkServer
+    from easynetwork.servers.handlers import AsyncStreamRequestHandler
+
+    backend = VerifBackend()
+    result: dict[str, Any] = {}
+    handler_done = asyncio.Event()
+
+    class H(AsyncStreamRequestHandler):
+        async def handle(self, client: Any):  # noqa: ANN202
+            yield
+            try:
+                async with client.backend().create_task_group() as tg:
+                    if case["contention"]:
+                        mem.set_writable(False)
+
+                        async def parked() -> None:
+                            try:
+                                await client.send_packet("parked")
+                            except Exception:  # noqa: BLE001
+                                pass
+
+                        tg.start_soon(parked)
+                        for _ in range(5):
+                            await asyncio.sleep(0)
+                        # the peer eventually reads again (otherwise an un-cancelled aclose() legitimately waits for ever)
+                        asyncio.get_running_loop().call_later(2.0, mem.set_writable, True)
+                    try:
+                        if inj.mode == "scope":
+                            with client.backend().open_cancel_scope() as scope:
+                                inj.scope = scope
+                                await stepped(client.aclose(), inj)
+                        else:
+                            inj.task = asyncio.current_task()
+                            await stepped(client.aclose(), inj)
+                    except asyncio.CancelledError:
+                        result["ended"] = "cancelled"
+                        raise
+                    except BaseException as exc:  # noqa: BLE001
+                        result["ended"] = type(exc).__name__
+                        raise
+                    else:
+                        result["ended"] = "returned"
+                    finally:
+                        result["closed_right_after"] = mem.closed
+                        result["closing_right_after"] = client.is_closing()
+                        result["steps"] = inj.steps
+            finally:
+                handler_done.set()
+
+    srv = AsyncTCPNetworkServer(None, 0, StreamProtocol(StringLineSerializer()), H(), backend)
+    up = asyncio.Event()
+    serve_task = asyncio.create_task(srv.serve_forever(is_up_event=up))
+    await up.wait()
+    mem = MemStreamTransport(backend, script=case["mem_script"])
+    backend.tcp_listeners[0].connect(mem)
+    mem.feed(b"go\n")
+    await handler_done.wait()
+    # the client task's own teardown follows the handler's end; give it a bounded number of iterations
+    for _ in range(50):
+        if mem.closed:
+            break
+        await asyncio.sleep(0)
+    facts = {
+        "underlying": [("transport-after-teardown", mem.closed)],
+        "outer_closing": result.get("closing_right_after"),
+        "second": None,
+        "closed_right_after": result.get("closed_right_after"),
+    }
+    end = {"cancelled": result.get("ended") == "cancelled" or (inj.mode == "scope" and inj.fired), "exception": None, "steps": result.get("steps", 0)}
+    if result.get("ended") not in ("cancelled", "returned", None):
+        end["exception"] = result["ended"]
+    await srv.shutdown()
+    await serve_task
+    await srv.server_close()
+    return {"end": end, "facts": facts}
+
+
 SCENARIOS = {
+    "adapter": _sc_adapter,
+    "server-client": _sc_server_client,
     "tls-aclose": _sc_tls_aclose,
     "tls-wrap": _sc_tls_wrap,
     "stapled-stream": _sc_stapled,
@@ -353,7 +474,11 @@ def st_mem_script() -> st.SearchStrategy[dict]:
 
 @st.composite
 def st_case(draw: st.DrawFn, tier: str) -> dict:
-    path = draw(st.sampled_from(["tls-aclose", "tls-aclose", "tls-wrap", "stapled-stream", "stapled-datagram", "endpoint", "client", "client"]))
+    path = draw(
+        st.sampled_from(
+            ["tls-aclose", "tls-aclose", "tls-wrap", "stapled-stream", "stapled-datagram", "endpoint", "client", "client", "adapter", "server-client", "server-client"]
+        )
+    )
     if path == "tls-aclose":
         return {
             "path": path,
@@ -386,6 +511,23 @@ def st_case(draw: st.DrawFn, tier: str) -> dict:
         return {"path": path, "send_script": draw(st_mem_script()), "recv_script": draw(st_mem_script())}
     if path == "endpoint":
         return {"path": path, "mem_script": draw(st_mem_script())}
+    if path == "adapter":
+        pending = draw(st.sampled_from([0, 0, 10, 5000]))
+        drains = draw(st.sampled_from([None, 1.0, 3.0])) if pending else None
+        lost = draw(st.sampled_from([None, None, 2.0]))
+        if pending and drains is None and lost is None:
+            drains = 1.0  # otherwise an un-cancelled close legitimately waits for ever for the unsent data
+        return {
+            "path": path,
+            "capacity": draw(st.sampled_from([None, 0, 4])) if pending else None,
+            "pending_bytes": pending,
+            "peer_drains_after": drains,
+            "lost_after": lost,
+        }
+    if path == "server-client":
+        # no scripted aclose() error here: an exception from transport.aclose() during the client task's teardown escapes
+        # into the server's task group (observation recorded in DESIGN 7.4; outside the statement of C14)
+        return {"path": path, "contention": draw(st.booleans()), "mem_script": {"aclose_yields": draw(st.integers(0, 4)), "aclose_error": None}}
     contention = draw(st.booleans())
     return {
         "path": "client",
@@ -401,7 +543,8 @@ CHECK = Check(
     rule=(
         "scenario = close path (TLS aclose with prompt/late/never close_notify reply; TLS wrap with normal/stalled/garbage/"
         "reset/eof handshake; stapled stream/datagram transports; stream endpoint; AsyncTCPNetworkClient with or without a "
-        "sender parked on backpressure) x scripted errors/suspensions of the wrapped transport's aclose/send_all/recv_into; "
+        "sender parked on backpressure; AsyncioTransportStreamSocketAdapter over a fake selector transport with unsent data; "
+        "the server-side client of a running AsyncTCPNetworkServer closed from its handler, followed by the client task's teardown) x scripted errors/suspensions of the wrapped transport's aclose/send_all/recv_into; "
         "each scenario is run uncancelled to count its n task steps, then re-run with a cancellation delivered before every "
         "step k<n, as task.cancel() and from an enclosing scope (exhaustive per scenario); non-trivial = a cancellation "
         "landed strictly between the first and the last await; distinct = sha1(scenario)"
